@@ -1,6 +1,7 @@
 import Just.Json
 import Just.Model.Quote
 import Just.Model.Path
+import Just.Model.Words
 import Just.Model.Percent
 import Just.Model.Determinism
 import Just.Generated.Tables
@@ -165,6 +166,20 @@ def handleConfirm (j : Json) : Except String Json := do
 def handleValidParams (j : Json) : Except String Json := do
   let ps : List Args.Param ← fromJson? (← j.getObjVal? "params")
   return Json.mkObj [("valid", toJson (Args.validParams ps))]
+
+/-- {"op":"positional","words":[..]} → `Positional::from_values` -/
+def handlePositional (j : Json) : Except String Json := do
+  let words : List String ← fromJson? (← j.getObjVal? "words")
+  let pos := Args.positional words {}
+  -- the character-level reading of the first word (`Just.Words.classify`), for comparison with the above
+  let first : Json := match words with
+    | [] => Json.null
+    | w :: _ => match Words.classify w.toList with
+      | .override n v => Json.mkObj [("override", toJson [String.ofList n, String.ofList v])]
+      | .searchDir d f => Json.mkObj [("searchDir", toJson (String.ofList d)), ("first", toJson (f.map String.ofList))]
+      | .argument a => Json.mkObj [("argument", toJson (String.ofList a))]
+  return Json.mkObj [("overrides", toJson (pos.overrides.map (fun o => [o.1, o.2]))), ("search_directory", toJson pos.searchDir),
+    ("arguments", toJson pos.args), ("first_word", first)]
 
 def handleWorkdir (j : Json) : Except String Json := do
   let c : Workdir.Ctx ← fromJson? (← j.getObjVal? "ctx")
@@ -573,6 +588,7 @@ def handle (line : String) : Json :=
       | "percent" => handlePercent j
       | "confirm" => handleConfirm j
       | "validparams" => handleValidParams j
+      | "positional" => handlePositional j
       | "args" => handleArgs j
       | "childenv" => handleChildEnv j
       | "workdir" => handleWorkdir j
